@@ -322,6 +322,14 @@ func (f *LocalFile) AddDirective(name string, args ...string) {
 		b.WriteString(strings.Join(args, " "))
 	}
 	b.WriteByte('\n')
+	// The statement scanner reads the delimiter directive from the first line
+	// of the file only. Keep it there, and add the new directive right below it.
+	if _, ok := directive(string(f.b), directiveDelimiter, directivePrefixSQL); ok {
+		if i := bytes.IndexByte(f.b, '\n'); i != -1 {
+			f.b = append(append(append([]byte{}, f.b[:i+1]...), b.String()...), f.b[i+1:]...)
+			return
+		}
+	}
 	if len(f.comments()) == 0 {
 		b.WriteByte('\n')
 	}
